@@ -59,14 +59,15 @@ def Leaf.isReloc : Leaf → Bool
   | .val _ _ _ e => e.label.isSome
   | .bf .. => false
 
-/-- the value the two back ends put into a bit-field agree (they differ for a `_Bool` bit-field initialised with a value
-    other than 0 or 1: write_gvar_data masks the unconverted value) -/
-def bfValAgree (kind : SKind) (bw : Nat) (e : Expr) : Prop :=
-  kind = .bool → u64 e.ival &&& bfMask bw = (if e.nz then 1 else 0) &&& bfMask bw
+/-- `mask` of the bit-field arms: `(1L << bit_width) - 1` -/
+def bfMask (bw : Nat) : Nat := (2 ^ bw - 1) % 18446744073709551616
+
+/-- the value both back ends put into a bit-field: converted to `_Bool` first if that is the member's type -/
+def bfVal (kind : SKind) (e : Expr) : Nat := if kind = .bool then (if e.nz then 1 else 0) else u64 e.ival
 
 def Leaf.ok (size : Nat) : Leaf → Prop
   | .val off sz kind e => leafOK sz kind e = true ∧ scalarOK sz kind = true ∧ off + sz ≤ size
-  | .bf off sz kind bo bw e => bfOK kind bw e = true ∧ (sz = 1 ∨ sz = 2 ∨ sz = 4 ∨ sz = 8) ∧ bo + bw ≤ 8 * sz ∧
+  | .bf off sz kind bo bw e => bfOK kind e = true ∧ (sz = 1 ∨ sz = 2 ∨ sz = 4 ∨ sz = 8) ∧ bo + bw ≤ 8 * sz ∧
       off + sz ≤ size
 
 /-- two leaves do not interfere: their bits are disjoint, and a relocation slot shares no byte with the other's store -/
@@ -297,36 +298,26 @@ theorem step_bf (im : Image) (size off sz : Nat) (kind : SKind) (bo bw : Nat) (e
     (hb : im.bytes.length = size) (hr : ∀ r ∈ im.relocs, r.offset + 8 ≤ size)
     (hok : Leaf.ok size (.bf off sz kind bo bw e)) (hc : Clean im (.bf off sz kind bo bw e)) :
     ∃ old, (∀ j, j < 8 * sz → old.testBit j = bitOf im.bytes (8 * off + j)) ∧
-      let im' : Image := { im with bytes := writeAt im.bytes off (leBytes (old ||| bfFld (u64 e.ival) bo bw) sz) }
+      let im' : Image := { im with bytes := writeAt im.bytes off (leBytes (old ||| bfFld (bfVal kind e) bo bw) sz) }
       staticLeaf im (.bf off sz kind bo bw e) = .ok im' ∧ autoLeaf im.cells (.bf off sz kind bo bw e) = .ok im'.cells := by
   obtain ⟨hbf, hsz, hfit, hin⟩ := hok
   obtain ⟨hcr, hcz⟩ := hc
   obtain ⟨old, hread, hold⟩ := readBuf_bits im.bytes off sz hsz (by omega)
   refine ⟨old, hold, ?_⟩
   intro im'
-  simp only [bfOK, Bool.and_eq_true, Bool.not_eq_true', Option.isNone_iff_eq_none, Bool.or_eq_true, beq_iff_eq,
-    decide_eq_true_eq] at hbf
+  simp only [bfOK, Bool.and_eq_true, Bool.not_eq_true', Option.isNone_iff_eq_none, Bool.or_eq_true, beq_iff_eq] at hbf
   obtain ⟨⟨_, hlab⟩, hkind⟩ := hbf
-  have hval : bfValAgree kind bw e := by
-    intro hk
-    rcases hkind with h | h
-    · rw [hk] at h; cases h
-    · exact h.2
   have hcl := cells_length im size hb hr
   constructor
   · have : staticLeaf im (.bf off sz kind bo bw e) =
-        (do let bytes ← writeBuf im.bytes off (old ||| bfFld (u64 e.ival) bo bw) sz
+        (do let bytes ← writeBuf im.bytes off (old ||| bfFld (bfVal kind e) bo bw) sz
             pure ({ im with bytes := bytes } : Image)) := by
       simp only [staticLeaf, hlab, Option.isSome_none, Bool.false_eq_true, ↓reduceIte, hread]
       rfl
     rw [this, writeBuf_ok _ _ _ _ hsz (by omega)]
     rfl
   · -- the value codegen stores
-    have hfld : bfFld (if kind = SKind.bool then if e.nz = true then 1 else 0 else u64 e.ival) bo bw = bfFld (u64 e.ival) bo bw := by
-      by_cases hk : kind = SKind.bool
-      · simp only [hk, ↓reduceIte]
-        exact (bfFld_congr _ _ _ _ (hval hk)).symm
-      · simp only [hk, ↓reduceIte]
+    have hfld : bfFld (if kind = SKind.bool then if e.nz = true then 1 else 0 else u64 e.ival) bo bw = bfFld (bfVal kind e) bo bw := rfl
     simp only [autoLeaf, autoKey, Leaf.key, Leaf.off, Leaf.kind, Leaf.e, runAssign, Assign.addr, List.map_cons, List.map_nil,
       Desg.disp, List.foldl_cons, List.foldl_nil, Nat.zero_add, hcl]
     have hns : ¬ ¬ (sz = 1 ∨ sz = 2 ∨ sz = 4 ∨ sz = 8) := fun h => h hsz
@@ -338,7 +329,7 @@ theorem step_bf (im : Image) (size off sz : Nat) (kind : SKind) (bo bw : Nat) (e
           ((((2 ^ bw - 1) % 18446744073709551616) <<< bo % 18446744073709551616) >>> (8 * k) % 256)
           ((((if kind = SKind.bool then if e.nz = true then 1 else 0 else u64 e.ival) &&&
               (2 ^ bw - 1) % 18446744073709551616) <<< bo % 18446744073709551616) >>> (8 * k) % 256)) =
-        (leBytes (old ||| bfFld (u64 e.ival) bo bw) sz).map Cell.byte := by
+        (leBytes (old ||| bfFld (bfVal kind e) bo bw) sz).map Cell.byte := by
       rw [leBytes_eq_range, List.map_map]
       apply List.map_congr_left
       intro k hk
@@ -350,7 +341,7 @@ theorem step_bf (im : Image) (size off sz : Nat) (kind : SKind) (bo bw : Nat) (e
       rw [hget]
       simp only [rmwCell, Function.comp]
       congr 1
-      have := rmw_byte old (u64 e.ival) bo bw k (im.bytes.getD (off + k) 0)
+      have := rmw_byte old (bfVal kind e) bo bw k (im.bytes.getD (off + k) 0)
         (by
           intro i hi
           rw [hold (8 * k + i) (by omega)]
@@ -442,8 +433,8 @@ theorem step (im : Image) (size : Nat) (l : Leaf) (hb : im.bytes.length = size) 
         by_cases hin' : 8 * off ≤ p ∧ p < 8 * (off + sz)
         · rw [bitOf_writeAt_inside _ _ _ (by rw [leBytes_length]; omega) p (by rw [leBytes_length]; exact hin')]
           rw [leBytes_bit _ _ _ (by omega), Nat.testBit_or, hold _ (by omega)]
-          have hf : (bfFld (u64 e.ival) bo bw).testBit (p - 8 * off) = false := by
-            cases hx : (bfFld (u64 e.ival) bo bw).testBit (p - 8 * off) with
+          have hf : (bfFld (bfVal kind e) bo bw).testBit (p - 8 * off) = false := by
+            cases hx : (bfFld (bfVal kind e) bo bw).testBit (p - 8 * off) with
             | false => rfl
             | true =>
               rw [bfFld_testBit, Bool.and_eq_true] at hx
